@@ -261,7 +261,7 @@ class GoParser:
             vals.append(self.expr())
             while self.accept(","):
                 vals.append(self.expr())
-        return N(kw, line, names=names, type=typ, values=vals)
+        return N(kw, line, names=names, type=typ, vals=vals)
 
     def type_spec(self) -> Node:
         line = self.t.line
@@ -411,7 +411,7 @@ class GoParser:
                 vals.append(self.expr())
                 while self.accept(","):
                     vals.append(self.expr())
-            return N("return", line, values=vals)
+            return N("return", line, vals=vals)
         if self.accept("defer"):
             return N("defer", line, call=self.expr())
         if self.accept("break"):
@@ -477,7 +477,7 @@ class GoParser:
                 while not (self.at("case") or self.at("default") or self.at("}")):
                     body2.append(self.stmt())
                     self.skip_semis()
-                cases.append(N("case", cl, values=vals2, body=body2))
+                cases.append(N("case", cl, vals=vals2, body=body2))
             self.expect("}")
             return N("switch", line, tag=tag, cases=cases)
         return self.simple_stmt()
